@@ -244,6 +244,9 @@ impl Gen {
                 if self.rng.chance(1, 3) {
                     return self.gen_try_local(d - 1);
                 }
+                if self.rng.chance(1, 4) {
+                    return self.gen_try_rethrow(d - 1);
+                }
                 self.feat("try-expr");
                 let body = self.conditional(|g| g.gen_throwing_int(d - 1));
                 let (p, c) = self.gen_catch(d - 1);
@@ -334,6 +337,27 @@ impl Gen {
             3 => Expr::Index(b(self.gen_list(d)), b(Expr::Int(9))),
             _ => self.gen_int(d),
         }
+    }
+    /// an inner `try` whose refutable catch pattern (a literal or a two-name sequence) may not match the
+    /// thrown value: the ORIGINAL value must travel on to the outer handler, which inspects it
+    fn gen_try_rethrow(&mut self, d: u32) -> Expr {
+        self.feat("try-rethrow-unmatched");
+        let thrown = *self.rng.pick(&[1i64, 2, 3]);
+        let c = self.gen_cond(d);
+        let fallback = self.gen_int(d);
+        let inner_body = Expr::Seq(vec![Expr::If(b(c), b(Expr::Throw(b(Expr::Int(thrown)))), None), fallback], false);
+        let (ip, ic) = if self.rng.chance(1, 2) {
+            (Pat::Lit(*self.rng.pick(&[1i64, 2, 3])), self.in_frame(|g| g.conditional(|g| g.gen_int(d))))
+        } else {
+            let (x, y) = (self.fresh(), self.fresh());
+            (Pat::Seq(vec![Pat::Ident(x.clone()), Pat::Ident(y)]), Expr::Ident(x))
+        };
+        let inner = Expr::Try(b(inner_body), ip, b(ic));
+        let e = self.fresh();
+        // the outer handler returns a value computed from the caught value
+        let k = self.small_int();
+        let outer_handler = Expr::Op("+".into(), b(Expr::Op("*".into(), b(Expr::Ident(e.clone())), b(Expr::Int(100)))), b(Expr::Int(k)));
+        Expr::Try(b(inner), Pat::Ident(e), b(outer_handler))
     }
     /// `try (q := safe; …may raise…) catch e -> …reads / assigns q…`: the try body runs in the enclosing
     /// scope, so a name it declares (always, first thing) is visible to the handler and afterwards
